@@ -530,9 +530,10 @@ def next_end_tokens(state: TokenizerState, open_line: bool) -> Iterator[TokenInf
             (state.lnum - 1, len(state.last_line) + 1),
             "",
         )
+    # (state.line is the physical line the input ended on: empty, or blanks without a newline)
     for _ in state.indents[1:]:  # pop remaining indent levels
-        yield TokenInfo(Token.DEDENT, "", (state.lnum, 0), (state.lnum, 0), "")
-    yield TokenInfo(Token.ENDMARKER, "", (state.lnum, 0), (state.lnum, 0), "")
+        yield TokenInfo(Token.DEDENT, "", (state.lnum, 0), (state.lnum, 0), state.line)
+    yield TokenInfo(Token.ENDMARKER, "", (state.lnum, 0), (state.lnum, 0), state.line)
 
 
 def scan_fstring_text(line: str, pos: int, quote: str, raw: bool) -> tuple[str, int] | None:
